@@ -19,7 +19,7 @@ def run(ctx):
     rng = ctx.rng
     nt = lambda c, i: i.startswith("(")
     cases, meta = [], []
-    n = ctx.scale(1200, 10000)
+    n = ctx.scale(3000, 20000)
     for _ in range(n):
         doc = D.gen_doc(rng, ops=False, i64=False, allow_escape=(rng.random() < 0.15))
         enc = rng.choice(["w1252", "utf8"])
